@@ -345,7 +345,7 @@ class Imm12Relocation(Relocation):
 
     def calc(self, sym_value, reloc_value):
         offset = sym_value - reloc_value - 4
-        assert offset in range(-2096, 2095), str(offset)
+        assert offset in range(-2048, 2048), str(offset)
         # TODO: this wrap_negative is somewhat weird
         return wrap_negative(offset, 12)
 
@@ -359,7 +359,7 @@ class Imm18Relocation(Relocation):
 
     def calc(self, sym_value, reloc_value):
         offset = sym_value - reloc_value - 4
-        assert offset in range(-131068, 131075), str(offset)
+        assert offset in range(-131072, 131072), str(offset)
         # TODO: this wrap_negative is somewhat weird
         return wrap_negative(offset, 18)
 
@@ -375,9 +375,10 @@ class Ri16Relocation(Relocation):
         assert sym_value & 3 == 0
         offset = sym_value - ((reloc_value + 3) & 0xFFFFFFFC)
         offset = offset >> 2
-        # assert offset in range(-60000, 2095), str(offset)
-        # TODO: this wrap_negative is somewhat weird
-        return wrap_negative(offset, 16)
+        # L32R extends its 16 bit word offset with ones: the literal
+        # lies 1 .. 65536 words before the instruction.
+        assert offset in range(-65536, 0), str(offset)
+        return offset & 0xFFFF
 
 
 @core_isa.register_relocation
@@ -393,7 +394,7 @@ class Call0Relocation(Relocation):
         s = sym_value >> 2
         r = (reloc_value & 0xFFFFFFFC) >> 2
         offset = s - (r + 1)
-        # assert offset in range(-524284, 524288), str(offset)
+        assert offset in range(-131072, 131072), str(offset)
         # TODO: this wrap_negative is somewhat weird
         return wrap_negative(offset, 18)
 
